@@ -82,6 +82,7 @@ def generate(rng, tier, focus, k=None):
         tr["scale_given"] = rng.random() < 0.8
         tr["relative"] = rng.choice([None, None, "cwd", "subdir"])
         tr["itp_style"] = rng.choice([0, 0, 1, 2, 3, 4, 5])
+        tr["end_renamed"] = rng.random() < 0.2
         return tr
     # discovery: which species are complete among the candidates, which are explicit, which excluded
     status = {}
@@ -187,8 +188,11 @@ def run_library(system, triples, scale, out, np_seed, steps_factor, sink):
         Alignment.STEPS_FACTOR = steps_factor
         with RandomSeam(sink, np_seed), contextlib.redirect_stdout(buf):
             manager = Manager.from_files(system, *[t[0] for t in triples])
+            from gaddlemaps.components import MoleculeTop
             for t in triples:
-                manager.add_end_molecule(Molecule.from_files(t[1], t[2]))
+                # the documented attribute route: the end molecule is given to the species of the START topology of its
+                # triple, whatever name the end topology carries (the same as add_end_molecule when the names agree)
+                manager.molecule_correspondence[MoleculeTop(t[0]).name].end = Molecule.from_files(t[1], t[2])
             manager.align_molecules()
             manager.calculate_exchange_maps(scale_factor=scale)
             manager.extrapolate_system(out)
@@ -230,6 +234,14 @@ def exec_equiv(trace, ctx):
     relative = trace.get("relative")
     wd = os.path.join(d, "w") if relative == "subdir" else d        # where the files live; the tool's cwd is always d
     os.makedirs(wd, exist_ok=True)
+    if trace.get("end_renamed"):
+        # the end topologies carry OTHER molecule names than the start topologies (lower case, or a tool's generic "MOL"):
+        # a triple is held together by being one triple, not by the names inside its files
+        import copy as _copy
+        world = _copy.deepcopy(world)
+        for k_, sp_ in enumerate(world["species"]):
+            sp_["end"]["name"] = sp_["name"].lower() if trace["np_seed"] % 2 else "MOL"
+        ctx.probe("end_topologies_named_differently")
     paths = W.write_world(wd, world, itp_style=int(trace.get("itp_style") or 0))
     triples = [(paths["species"][s]["top_start"], paths["species"][s]["gro_end"], paths["species"][s]["top_end"])
                for s in trace["order"]]
